@@ -352,7 +352,7 @@ func (b *Built) Execute(r *rand.Rand) {
 	case "redefine":
 		before := env.Execs
 		nf, err := b.Target.Redefine(args...)
-		rd := EvRedef{Ev: "redef", OK: err == nil, Inputs: []Label{}, Given: []Label{}, Toks: []int{}, Toks3: []int{}, Execs: env.Execs - before}
+		rd := EvRedef{Ev: "redef", OK: err == nil, Inputs: []Label{}, Given: []Label{}, Given2: []Label{}, Toks: []int{}, Toks3: []int{}, Execs: env.Execs - before}
 		if err != nil {
 			rd.Detail = firstLine(err.Error())
 			var ua *am.ErrArgumentUnsatisfied
@@ -371,6 +371,11 @@ func (b *Built) Execute(r *rand.Rand) {
 				gl.Type = c // the API can only take the dynamic type of a supplied value
 			}
 			rd.Given = append(rd.Given, gl)
+			g2 := l
+			if c, ok := ifaceImplAlt[l.Type]; ok {
+				g2.Type = c
+			}
+			rd.Given2 = append(rd.Given2, g2)
 			if s.NoFollowUp {
 				continue // no value is handed over, so no token is consumed
 			}
@@ -405,8 +410,8 @@ func (b *Built) Execute(r *rand.Rand) {
 		// every declared input (token 0); nothing of the first call may linger, and a zero value is a value
 		env.Phase = s.Phase0 + 2
 		var call2 []am.Arg
-		for _, l := range rd.Inputs {
-			call2 = append(call2, apiArg(l, MkValue(l.Type, 0).Interface(), r.Intn(3)))
+		for i, l := range rd.Inputs {
+			call2 = append(call2, apiArg(l, MkValueAs(rd.Given2[i].Type, 0), r.Intn(3)))
 		}
 		res2 := nf.Call(call2...)
 		ret2 := emptyRet("", s.Phase0+2)
@@ -423,7 +428,7 @@ func (b *Built) Execute(r *rand.Rand) {
 			env.Phase = s.Phase0 + 3
 			var call3 []am.Arg
 			for i, l := range rd.Inputs[:len(rd.Inputs)-1] {
-				call3 = append(call3, apiArg(l, MkValue(l.Type, rd.Toks3[i]).Interface(), r.Intn(3)))
+				call3 = append(call3, apiArg(l, MkValueAs(rd.Given2[i].Type, rd.Toks3[i]), r.Intn(3)))
 			}
 			res3 := nf.Call(call3...)
 			ret3 := emptyRet("", s.Phase0+3)
